@@ -19,6 +19,7 @@ mod git_commit_parser;
 #[path = "/repo/harper-ls/src/pos_conv.rs"]
 mod pos_conv;
 
+mod c04;
 mod c06;
 mod c07;
 mod c08;
